@@ -7,6 +7,15 @@ for l in open('/verif/properties.jsonl'):
     p = json.loads(l)
     if p['id'] == pid:
         break
+import glob, os
+prior = []
+for m in sorted(glob.glob('/verif/seeded/%s-*/meta.json' % pid)):
+    note = (json.load(open(m)).get('needs_to_manifest') or '').strip().replace("\n", " ")
+    prior.append("  - " + note[:420])
+PRIOR = ""
+if prior and os.environ.get("WAVE3"):
+    PRIOR = "\n\nOther people have ALREADY proposed the following changes for this property; yours must be genuinely different (different mechanism, different code site or different trigger), not variations of these:\n" + "\n".join(prior) + "\n"
+NUM = "THREE" if os.environ.get("WAVE3") else "TWO"
 print(f"""You are helping evaluate a verification effort for the Python library gffutils (parses GFF/GTF genomic annotation files into a sqlite3 database). You have your own scratch git worktree of the library at {wt} (a checkout of the current code). Work ONLY inside {wt}; never touch /repo or /verif, and do not read anything under /verif.
 
 Here is a semantic property the library is supposed to satisfy:
@@ -16,14 +25,15 @@ STATEMENT: {p['statement']}
 QUANTIFIER: {p['quantifier']['text']}
 CODE AREAS: {', '.join(p['anchors']['files'])}
 
-Your task: produce TWO different, independent, realistic changes (bugs) to the library source under {wt}/gffutils (not the tests) such that each one:
+{PRIOR}
+Your task: produce {NUM} different, independent, realistic changes (bugs) to the library source under {wt}/gffutils (not the tests) such that each one:
   1. breaks the property above (for some inputs / configurations / sequences of operations),
   2. still imports and passes the existing test suite exactly as before. The pinned command, run from the worktree root, is:
        cd {wt} && /venv/bin/python -m pytest -q -p no:cacheprovider --timeout=900 --continue-on-collection-errors
      On the unmodified code this gives '2 failed, 74 passed, 1 error' (the 2 failures and the collection error are pre-existing and expected). With your change the same 74 tests must still pass and nothing else may change.
   3. looks like a plausible mistake or an innocent-looking refactoring/optimisation a developer could really make (an off-by-one, a wrong operator, a dropped clause, a cached value, state hoisted to module or object scope, two cooperating sites that each look fine alone ...), NOT a blatant sabotage, and
   4. needs something SPECIFIC to manifest: an unusual input, a particular configuration/option combination, a multi-step sequence of operations, a boundary value, a particular ordering. Ordinary everyday use (the simplest input with default options) should still work, so the bug is not exposed at once.
-The two changes should be in different functions or concern different aspects of the property.
+The changes should be in different functions or concern different aspects of the property (think of: state kept across calls or objects, ordering assumptions, boundary values, rarely used options or argument forms, interactions between two features of the library, error paths).
 
 For each change deliver, in the directory {wt}/_out/ (create it):
   - mutantN.diff  : the change as a unified diff against the unmodified worktree (produce with `git -C {wt} diff -- gffutils > {wt}/_out/mutantN.diff` while only that change is applied; then `git -C {wt} checkout -- gffutils` before starting the next one),
